@@ -12,12 +12,14 @@ def count(pat, files):
 model = glob.glob(os.path.join(V, "lean/AdfModel/*.lean"))
 props = sorted(glob.glob(os.path.join(V, "lean/AdfProps/*.lean")))
 proofs = glob.glob(os.path.join(V, "lean/AdfProofs/*.lean"))
+FOUND_BY_CHECKS = {'5b0bd90','4b0adf0','0fddb8f','c06b32e','1e9dfbe','8a8eebf','61108fd','e5b4bec','adde754','3a1aaaa','f610743','e55a712','e7749aa'}
 fixes = []
 for f in reversed(kf["fixed"]):
     subj = f.get("subject")
     if not subj:
         subj = subprocess.run(["git", "-C", "/repo", "log", "-1", "--format=%s", f["commit"]], capture_output=True, text=True).stdout.strip()
-    fixes.append(f"| `{f['commit']}` | {f['property']} | {subj[5:] if subj.startswith('fix: ') else subj} |")
+    mark = " †" if f["commit"] in FOUND_BY_CHECKS else ""
+    fixes.append(f"| `{f['commit']}`{mark} | {f['property']} | {subj[5:] if subj.startswith('fix: ') else subj} |")
 thm = []
 for p in props:
     pid = os.path.basename(p)[:-5]
@@ -29,9 +31,13 @@ seeds = []
 for d in sorted(glob.glob(os.path.join(V, "seeded/C*"))):
     m = json.load(open(os.path.join(d, "meta.json")))
     seeds.append(f"| {m['property']} | {m['needs_to_manifest']} | {m['detected_by']} |")
+seeds2 = []
+for d in sorted(glob.glob(os.path.join(V, "seeded2/C*"))):
+    m = json.load(open(os.path.join(d, "meta.json")))
+    seeds2.append(f"| {m['property']} | `{m['file']}` | {m['needs_to_manifest']} | {m['detected_by']} |")
 corr = open(os.path.join(V, "NOTES_corrections.md")).read().split("\n", 1)[1].strip()
 out = (src.replace("@@PERPROP@@", per.strip()).replace("@@FIXES@@", "\n".join(fixes)).replace("@@THEOREMS@@", "\n".join(thm))
-       .replace("@@SEEDS@@", "\n".join(seeds)).replace("@@CORRECTIONS@@", corr)
+       .replace("@@SEEDS@@", "\n".join(seeds)).replace("@@SEEDS2@@", "\n".join(seeds2)).replace("@@CORRECTIONS@@", corr)
        .replace("@@MODEL_LINES@@", str(sum(len(open(f).read().split("\n")) for f in model)))
        .replace("@@NPROPTHM@@", str(count(r"^(theorem|example)", props))).replace("@@NLEMMA@@", str(count(r"^theorem", proofs)))
        .replace("@@NFIX@@", str(len(kf["fixed"]))))
